@@ -109,10 +109,7 @@ JOIN_CLASSES = {"join-ready-before-sides", "join-list-error", "join-not-ready", 
                 "join-duplicates", "join-events-not-delta", "join-close-hangs", "join-close-stops-base", "join-leak", "join-error", "crash"}
 
 
-@family("C09")
-def check_joins(prop, tier, replay):
-    res = vlib.Result(prop, tier, "model_checking")
-    mgen, mdist, mnames = vlib.model_check_all([("Join", "Join.cfg")])
+def run_joins(res, tier, want):
     sc = vlib.scratch()
     h = vlib.build_harness()
     nproc = 9
@@ -151,7 +148,7 @@ def check_joins(prop, tier, replay):
             raise Inconclusive("TLC did not consume %s: %s" % (f, out[-2000:]))
         lines += nrec
         for (ln, cls, txt) in vlib.verdicts(out):
-            if cls in JOIN_CLASSES:
+            if cls in want:
                 res.classify(cls, txt, artefact={"file": os.path.basename(f), "line": ln, "seed": vlib.seed()})
         for line in open(f):
             r = json.loads(line)
@@ -162,6 +159,16 @@ def check_joins(prop, tier, replay):
                     samples.append(r)
     if len(joins) < 9:
         raise Inconclusive("not every join was exercised: %s" % sorted(joins))
+    return dict(lines=lines, snaps=snaps, joins=joins, samples=samples, scenarios=per * nproc)
+
+
+@family("C09")
+def check_joins(prop, tier, replay):
+    res = vlib.Result(prop, tier, "model_checking")
+    mgen, mdist, mnames = vlib.model_check_all([("Join", "Join.cfg")])
+    st = run_joins(res, tier, JOIN_CLASSES)
+    lines, snaps, joins, samples = st["lines"], st["snaps"], st["joins"], st["samples"]
+    per, nproc = st["scenarios"], 1
     res.coverage = {
         "states": mdist, "transitions": mgen, "design_models": mnames, "traces_validated_against_impl": per * nproc, "samples": samples,
         "evaluations": snaps, "distinct_nontrivial": snaps,
